@@ -105,6 +105,7 @@ witness = witness_c
 
 _MAIN = r"""
 #include <sys/socket.h>
+void osmo_panic(const char *fmt, ...) { printf("osmo_panic\n"); fflush(stdout); abort(); }   /* OSMO_ASSERT of the code under test failed */
 int trxcon_phyif_handle_burst_ind(void *priv, const struct trxcon_phyif_burst_ind *bi)
 {
 	unsigned int i;
@@ -166,26 +167,28 @@ def harness_flags():
 
 def expected_rx(adv, d):
     """reference per the statement: acceptance as trx_data_rx_cb's contract, fields per the layout"""
+    # the value returned by the callback is not judged (the statement is silent, libosmocore's select loop ignores it); a rejected
+    # datagram is one for which nothing is indicated
     n = len(d)
     if n == 0:
         return None
     if n < 8:
-        return {"ret": -22}
+        return {}
     if d[0] >> 4:
-        return {"ret": -95}
+        return {}
     P = n - 8
     if P not in CT.ACCEPTED_BURST_PARTS:
-        return {"ret": -22}
+        return {}
     fn = (d[1] << 24) | (d[2] << 16) | (d[3] << 8) | d[4]
     if fn >= CT.HYPERFRAME:
-        return {"ret": -22}
+        return {}
     bl = P if P in (148, 444) else P - 2
     s8 = lambda x: x - 256 if x >= 128 else x
     rssi = -s8(d[5])
     rssi = rssi - 256 if rssi > 127 else rssi
     toa = (d[6] << 8) | d[7]
     toa = toa - 65536 if toa >= 32768 else toa
-    return {"ret": 0, "ind": {"fn": fn, "tn": d[0] & 7, "toa256": toa, "rssi": rssi, "burst_len": bl},
+    return {"ind": {"fn": fn, "tn": d[0] & 7, "toa256": toa, "rssi": rssi, "burst_len": bl},
             "bits": [-127 if x == 255 else 127 - x for x in d[8:8 + bl]], "rts": {"fn": (fn + adv) % CT.HYPERFRAME, "tn": d[0] & 7}}
 
 
@@ -247,9 +250,14 @@ def replay_one(payload):
     elif func == "trx_if_handle_phyif_burst_req":
         bl = max(min(w.get("burst_len", 0), 506), 0)
         bits = (list(w.get("burst") or []) + [0] * bl)[:bl]
-        tn, fn, pwr = w.get("tn", 0) % 8, w.get("fn", 0) % (1 << 32), w.get("pwr", 0) % 256
+        tn, fn, pwr = w.get("tn", 0) % 256, w.get("fn", 0) % (1 << 32), w.get("pwr", 0) % 256
         res = R.run_harness(harness(), harness_flags(), ["tx", tn, fn, pwr, bl] + bits)
-        exp = {"ret": 0, "sent": 6 + bl, "octets": [tn, (fn >> 24) & 255, (fn >> 16) & 255, (fn >> 8) & 255, fn & 255, pwr] + bits}
+        if tn > 7 or fn >= CT.HYPERFRAME or bl not in (0, 148, 444):
+            # outside the statement's domain (burst requests as the scheduler produces them): executed, only memory safety is judged
+            exp = {}
+        else:
+            # (the value returned is not judged: nobody consumes it)
+            exp = {"sent": 6 + bl, "octets": [tn, (fn >> 24) & 255, (fn >> 16) & 255, (fn >> 8) & 255, fn & 255, pwr] + bits}
     else:
         return {"confirmed": False, "error": "no replay for %r" % func}
     if res.get("rc") is None:
@@ -257,7 +265,7 @@ def replay_one(payload):
     obs = parse_out(res.get("stdout", ""))
     bad = {k: [obs.get(k), v] for k, v in exp.items() if obs.get(k) != v}
     for k in ("ind", "rts", "bits"):
-        if k in obs and k not in exp:
+        if k in obs and k not in exp and func == "trx_data_rx_cb":
             bad[k] = [obs[k], None]
     if res.get("sanitizer") or res["rc"] != 0:
         bad["sanitizer"] = [res.get("sanitizer") or "exit status %s" % res["rc"], None]
